@@ -118,6 +118,23 @@ func (vc *FnVC) call(st *State, c *ssa.CallCommon, instr *ssa.Call, rt types.Typ
 		return vc.applyContract(st, u, callee, pkg, callee.Signature, names, vals, rt, vc.G.fnKey(callee), c, instr)
 	}
 	if vc.G.isPureLib(callee) {
+		// a closure handed to the library may be run by it: its effects happen here
+		for _, a := range c.Args {
+			if mc, ok := a.(*ssa.MakeClosure); ok {
+				ws, all := vc.G.fnWrites(mc.Fn.(*ssa.Function), vc.rootPkg())
+				vc.havocSet(st, ws, all)
+			} else if _, isSig := a.Type().Underlying().(*types.Signature); isSig {
+				if _, isConst := a.(*ssa.Const); !isConst {
+					if f, isFn := a.(*ssa.Function); isFn {
+						ws, all := vc.G.fnWrites(f, vc.rootPkg())
+						vc.havocSet(st, ws, all)
+					} else {
+						vc.note("function value passed to %s: unknown effects, whole heap havocked", callee.String())
+						vc.havocSet(st, map[string]bool{}, true)
+					}
+				}
+			}
+		}
 		// escaping addresses of fields may still be written by the callee
 		vc.escapeArgs(st, args)
 		r := vc.freshVal(st, rt, "r."+callee.Name())
